@@ -749,12 +749,17 @@ func (cs *csms) SetNewChargingStationHandler(handler ChargingStationConnectionHa
 
 func (cs *csms) SetChargingStationDisconnectedHandler(handler ChargingStationConnectionHandler) {
 	cs.server.SetDisconnectedClientHandler(func(chargingStation ws.Channel) {
-		for cb, ok := cs.callbackQueue.Dequeue(chargingStation.ID()); ok; cb, ok = cs.callbackQueue.Dequeue(chargingStation.ID()) {
-			err := ocpp.NewError(ocppj.GenericError, "client disconnected, no response received from client", "")
-			cb(nil, err)
-		}
+		cs.cancelPendingCallbacks(chargingStation.ID())
 		handler(chargingStation)
 	})
+}
+
+// cancelPendingCallbacks invokes, with an error, the callbacks of all requests still pending for a disconnected client.
+func (cs *csms) cancelPendingCallbacks(chargingStationID string) {
+	for cb, ok := cs.callbackQueue.Dequeue(chargingStationID); ok; cb, ok = cs.callbackQueue.Dequeue(chargingStationID) {
+		err := ocpp.NewError(ocppj.GenericError, "client disconnected, no response received from client", "")
+		cb(nil, err)
+	}
 }
 
 func (cs *csms) SendRequestAsync(clientId string, request ocpp.Request, callback func(response ocpp.Response, err error)) error {
